@@ -99,10 +99,65 @@ type dsWorld struct {
 	srv   *sadns.ServerDnsListener
 	objs  []net.Conn // session objects in order of first appearance in a live slot (sid = index)
 	limit int
+	// what the application side sees: the connections the real Accept() handed out, and, per session object, the
+	// chunks (sequence number -> bytes) the application's Writes put into its out-queue
+	accepted []net.Conn
+	opens    int // successful version answers so far
+	ledger   map[net.Conn]map[uint16][]byte
+}
+
+// drainAccept takes every waiting session out of the real Accept()
+func (w *dsWorld) drainAccept() (fresh []net.Conn) {
+	for w.srv.VerifAcceptBacklog() > 0 {
+		c, err := w.srv.Accept()
+		if err != nil {
+			break
+		}
+		w.accepted = append(w.accepted, c)
+		fresh = append(fresh, c)
+	}
+	return
+}
+
+// namedId is the identifier a message carries as far as the server's dispatch is concerned: the header of the first
+// command whose letter matches (0 for commands without a user id), parsed with the real decoder
+func (w *dsWorld) namedId(q *dns.Msg) (uid int, ok bool) {
+	defer func() {
+		if e := recover(); e != nil {
+			ok = false
+		}
+	}()
+	req := commands.ComposeRequest(q, w.dom)
+	for _, c := range commands.Commands {
+		if c.IsOfType(req) {
+			if c.NewRequest == nil {
+				return 0, false
+			}
+			_, u, err := commands.DecodeRequestHeader(c, req)
+			if err != nil {
+				return 0, false
+			}
+			return int(u), true
+		}
+	}
+	return 0, false
+}
+
+// liveIds maps the identifiers that are live right now to the sid of the session object holding them
+func (w *dsWorld) liveIds() map[int]int {
+	w.discover()
+	m := map[int]int{}
+	live, _ := w.srv.VerifOccupied()
+	for _, i := range live {
+		if l := w.srv.VerifSlot(i, false); l != nil {
+			m[i] = w.sidOf(l.Obj)
+		}
+	}
+	return m
 }
 
 func dsNewWorld(dom string) *dsWorld {
-	w := &dsWorld{dom: dom, comm: &dsComm{}}
+	w := &dsWorld{dom: dom, comm: &dsComm{}, ledger: map[net.Conn]map[uint16][]byte{}}
 	w.srv = sadns.NewServerDnsListener(dom, w.comm)
 	w.limit = w.srv.VerifTableSize()
 	return w
@@ -432,6 +487,8 @@ func dsRun(line string) (result, monitor string, nMsgs int, classes []string) {
 			q.RecursionDesired = true
 			q.Question = []dns.Question{{Name: string(nameb), Qtype: uint16(qt), Qclass: uint16(dnsmessage.ClassINET)}}
 			codec := w.answerCodec(q)
+			idsBefore := w.liveIds()
+			named, hasNamed := w.namedId(q)
 			var resp *dns.Msg
 			var herr error
 			panicked := ""
@@ -466,6 +523,68 @@ func dsRun(line string) (result, monitor string, nMsgs int, classes []string) {
 					note(fmt.Sprintf("message from %s changed session S%d of %s", f[1], sid, ownerBefore[sid]))
 				} else if !liveBefore[sid] && after[sid] != b {
 					note(fmt.Sprintf("message changed the retired session S%d", sid))
+				}
+			}
+			// a message changes at most the session it names (the live session with that identifier, if the sender owns
+			// it) — also when the sender owns several sessions
+			namedSid := -1
+			if sid, ok := idsBefore[named]; ok && hasNamed && ownerBefore[sid] == f[1] {
+				namedSid = sid
+			}
+			for sid, b := range before {
+				if sid != namedSid && after[sid] != b {
+					note(fmt.Sprintf("message from %s carrying identifier %d changed session S%d (%s), which does not hold that identifier", f[1], named, sid, ownerBefore[sid]))
+				}
+			}
+			// every successful open: an identifier no live session held, and a new session object of its own out of Accept()
+			fresh := w.drainAccept()
+			if strings.HasPrefix(a, "v:OK:") {
+				id, _ := strconv.Atoi(a[5:])
+				w.opens++
+				if held, ok := idsBefore[id]; ok {
+					note(fmt.Sprintf("version request from %s was answered with identifier %d, which the live session S%d of %s held at that moment: "+
+						"two concurrent sessions share one identifier (and one server-side stream)", f[1], id, held, ownerBefore[held]))
+				}
+				if len(fresh) != 1 {
+					note(fmt.Sprintf("open #%d (identifier %d, from %s) succeeded but %d new server-side connection(s) came out of Accept(): "+
+						"%d successful opens, %d accepted connections", w.opens, id, f[1], len(fresh), w.opens, len(w.accepted)))
+				} else {
+					d := sadns.VerifDescribeConn(fresh[0])
+					inNext, inBuf, _, _ := d.In.VerifInState()
+					outNext, outSeqs, _, _, _ := d.Out.VerifOutState()
+					l := w.srv.VerifSlot(id, false)
+					switch {
+					case int(d.UserId) != id || dsAddrName(d.Owner) != f[1]:
+						note(fmt.Sprintf("open answered with identifier %d for %s, but the accepted connection has identifier %d and belongs to %s", id, f[1], d.UserId, dsAddrName(d.Owner)))
+					case l == nil || l.Obj != fresh[0]:
+						note(fmt.Sprintf("open answered with identifier %d, but the accepted connection is not the live session of that identifier", id))
+					case inNext != 0 || len(inBuf) != 0 || outNext != 0 || len(outSeqs) != 0:
+						note(fmt.Sprintf("the session opened with identifier %d does not start with empty streams", id))
+					}
+					for _, o := range w.accepted[:len(w.accepted)-1] {
+						if o == fresh[0] {
+							note(fmt.Sprintf("open #%d was given a session object that an earlier open had been given", w.opens))
+						}
+					}
+				}
+			}
+			// bytes handed out in an answer to identifier i are bytes the application wrote to the session holding i
+			if p := strings.Split(a, ":"); len(p) == 5 && p[0] == "c" && p[1] == "OK" && hasNamed {
+				seq, _ := strconv.Atoi(p[3])
+				sid, ok := idsBefore[named]
+				var want []byte
+				var have bool
+				if ok && sid >= 0 && sid < len(w.objs) {
+					want, have = w.ledger[w.objs[sid]][uint16(seq)]
+				}
+				if !have || hexs(want) != p[4] {
+					whose := "no session"
+					for s2, o := range w.objs {
+						if d, ok := w.ledger[o][uint16(seq)]; ok && hexs(d) == p[4] {
+							whose = fmt.Sprintf("session S%d (%s)", s2, ownerBefore[s2])
+						}
+					}
+					note(fmt.Sprintf("answer to %s for identifier %d carried chunk %d = %s, which the application did not write to the session holding that identifier (written to: %s)", f[1], named, seq, p[4], whose))
 				}
 			}
 			if strings.HasPrefix(a, "c:OK") || strings.HasPrefix(a, "o:OK") || strings.HasPrefix(a, "r:OK") || strings.HasPrefix(a, "z:OK") {
@@ -519,6 +638,14 @@ func dsRun(line string) (result, monitor string, nMsgs int, classes []string) {
 					_, _, queuedBefore, _, _ := d.Out.VerifOutState()
 					_, _ = w.objs[sid].Write(data)
 					d.Out.OnChunkAdded = nil
+					if _, seqs, datas, _, _ := d.Out.VerifOutState(); len(seqs) >= len(queuedBefore) {
+						if w.ledger[w.objs[sid]] == nil {
+							w.ledger[w.objs[sid]] = map[uint16][]byte{}
+						}
+						for i := len(queuedBefore); i < len(seqs); i++ {
+							w.ledger[w.objs[sid]][seqs[i]] = datas[i]
+						}
+					}
 					// bounded work: a Write of len(data) bytes on a session whose fragment size f was accepted by the
 					// server needs exactly ceil(len/f) non-empty chunks that together carry the data
 					if d.Frag > 0 && !d.Closed {
@@ -1070,6 +1197,50 @@ func (dsComp) Gen(r *Rand, tier string, emit func(string)) {
 		b.upTest("a2", 0, []byte("x"))
 		b.packet("a1", 0, 0, nil, 40)
 		emit(b.line())
+	}
+	// two or three sessions opened from ONE address (two tunnel clients behind one forwarder; a repeated version request),
+	// the later opens arriving before / after the first session has moved anything; then every application writes its own
+	// bytes, and packets with every identifier are interleaved, each carrying its own upstream bytes
+	for _, dom := range doms[:2] {
+		for _, n := range []int{2, 3} {
+			for stage := 0; stage < 4; stage++ {
+				b := dsNewBuilder(r, dom)
+				b.open("a1", sadns.ProtocolVersion)
+				seq := make([]uint16, n+1)
+				switch stage {
+				case 1: // polls and options only: no payload yet
+					b.packet("a1", 0, 65535, nil, 40)
+					b.options("a1", 0, &commands.SetOptionsRequest{LazyMode: bp(true)})
+				case 2: // upstream payload has moved
+					b.packet("a1", 0, 65535, &util.Packet{SeqNo: 0, Data: []byte("first-up")}, 40)
+					seq[0] = 1
+				case 3: // downstream payload has moved
+					b.write(0, []byte("first-down"))
+					b.packet("a1", 0, 65535, nil, 40)
+					b.packet("a1", 0, 0, nil, 40)
+				}
+				for k := 1; k < n; k++ {
+					b.open("a1", sadns.ProtocolVersion)
+				}
+				for k := 0; k < n; k++ {
+					b.write(k, []byte(fmt.Sprintf("down-for-session-%d", k)))
+				}
+				for round := 0; round < 2; round++ {
+					for k := n - 1; k >= 0; k-- {
+						b.packet("a1", k, 65535, &util.Packet{SeqNo: seq[k], Data: []byte(fmt.Sprintf("up-%d-%d", k, round))}, 40)
+						seq[k]++
+					}
+				}
+				for k := 0; k < n; k++ {
+					b.packet("a1", k, 0, nil, 40)
+				}
+				b.open("a2", sadns.ProtocolVersion) // same host, other port: one more session
+				b.write(n, []byte("down-for-a2"))
+				b.packet("a2", n, 65535, &util.Packet{SeqNo: 0, Data: []byte("up-a2")}, 40)
+				b.packet("a1", n, 65535, nil, 40) // a1 does not own it
+				emit(b.line())
+			}
+		}
 	}
 	// server full: 1297 version requests
 	{
